@@ -23,7 +23,12 @@ CONFIGS = {
     "default": [],
     "nodefault": ["--no-default-features"],
     "fsrpc": ["--no-default-features", "--features", "fs-store,rpc"],
+    "hooks": [],
 }
+# extra rustc flags per configuration ("hooks" = default features with the verification guard on)
+CONFIG_RUSTFLAGS = {"hooks": "--cfg iroh_docs_verif"}
+THOROUGH_CFGS = ("nodefault", "fsrpc", "hooks")
+WITNESS_PROPS = {"C03", "C06", "C07", "C12"}
 
 
 def log(msg):
@@ -76,6 +81,7 @@ def source_hash(cfg, extra_rustflags=""):
 def extract(cfg="default", extra_rustflags=""):
     """Return the path of a fact file for /repo's current working tree in configuration `cfg`."""
     ensure_driver()
+    extra_rustflags = (CONFIG_RUSTFLAGS.get(cfg, "") + " " + extra_rustflags).strip()
     os.makedirs(os.path.join(CACHE, "facts"), exist_ok=True)
     lock = open(os.path.join(CACHE, "extract-%s.lock" % cfg), "w")
     fcntl.flock(lock, fcntl.LOCK_EX)
@@ -223,6 +229,60 @@ class Ctx:
                          "rule produced %d obligations, fewer than the %d confirmed by hand: it would pass vacuously" % (got, n))
 
 
+def run_witness():
+    """compile-fail witnesses (nightly doctests): the crate-internal entry points are unreachable
+    from outside the crate. Each compile_fail block has a compiling twin."""
+    wdir = os.path.join(VERIF, "witness")
+    t0 = time.time()
+    shutil.copyfile(os.path.join(REPO, "Cargo.lock"), os.path.join(wdir, "Cargo.lock"))
+    env = dict(os.environ, CARGO_NET_OFFLINE="true")
+    cmd = ["cargo", "+nightly", "test", "--doc", "--offline"]
+    p = subprocess.run(cmd, cwd=wdir, env=env, stdout=subprocess.PIPE, stderr=subprocess.STDOUT, text=True)
+    import re as _re
+    obligations = []
+    passed = failed = 0
+    for m in _re.finditer(r"^test (src/lib.rs - (\w+) \(line \d+\)(?: - compile fail)?) \.\.\. (\w+)", p.stdout, flags=_re.M):
+        name, item, res = m.group(1), m.group(2), m.group(3)
+        kind = "compile_fail" if "compile fail" in name else "twin"
+        ok = res == "ok"
+        passed += ok
+        failed += (not ok)
+        obligations.append({"rule": "WITNESS", "key": "WITNESS @ %s # %s" % (item, kind), "status": "holds" if ok else "VIOLATED",
+                            "detail": "doctest %s: %s" % (name, res), "loc": "witness/src/lib.rs", "cfg": "witness"})
+    if p.returncode != 0 and not failed:
+        obligations.append({"rule": "WITNESS", "key": "WITNESS @ build # doctests", "status": "VIOLATED", "detail": p.stdout[-1500:], "loc": "witness/", "cfg": "witness"})
+    if passed + failed < 10 and p.returncode == 0:
+        obligations.append({"rule": "WITNESS", "key": "WITNESS @ INSTANCE-COUNT # expected>=10", "status": "VIOLATED", "detail": "only %d doctests ran" % (passed + failed), "loc": "witness/", "cfg": "witness"})
+    return {"cmd": "cd witness && " + " ".join(cmd), "passed": passed, "failed": failed, "wall_s": round(time.time() - t0, 1), "obligations": obligations}
+
+
+def run_selftest(prop):
+    """seeded-variant self-test for one property (informational: never changes the verdict)"""
+    t0 = time.time()
+    sys.path.insert(0, os.path.join(VERIF, "selftest"))
+    try:
+        import variants
+        ids = [v["id"] for v in variants.V if v["prop"] == prop]
+    except Exception as e:  # pragma: no cover
+        return {"error": str(e)}
+    if not ids:
+        return {"variants": 0}
+    env = dict(os.environ)
+    env.pop("VERIF_EVIDENCE_DIR", None)
+    p = subprocess.run([sys.executable, os.path.join(VERIF, "selftest", "run.py"), "--only", ",".join(ids)], cwd=VERIF, env=env,
+                       stdout=subprocess.PIPE, stderr=subprocess.STDOUT, text=True)
+    rows = []
+    for line in p.stdout.splitlines():
+        parts = line.split(None, 3)
+        if len(parts) >= 3 and parts[0] in ids:
+            rows.append({"id": parts[0], "status": parts[2] if parts[2] != "STALE" else "stale", "note": parts[3][:120] if len(parts) > 3 else ""})
+    summ = {}
+    for r in rows:
+        summ[r["status"]] = summ.get(r["status"], 0) + 1
+    return {"variants": len(ids), "summary": summ, "rows": rows, "wall_s": round(time.time() - t0, 1),
+            "note": "informational: each variant is applied to a scratch worktree of /repo and re-analysed; it never changes this check's verdict"}
+
+
 def load_known_findings():
     path = os.path.join(VERIF, "known_findings.jsonl")
     known = {}
@@ -276,13 +336,16 @@ def run_check(prop, tier, module, explanation, assumptions, level="other", extra
         analysed |= ctx.analysed_bodies
         rules_run = ctx.rules_run
     extra = {}
-    if tier == "thorough" and hasattr(module, "thorough"):
-        extra = module.thorough(prop) or {}
-        for v in extra.pop("violations", []):
-            all_viol.append(v)
-            all_obl.append(v)
-        for o in extra.pop("obligations", []):
-            all_obl.append(o)
+    if tier == "thorough":
+        if prop in WITNESS_PROPS:
+            w = run_witness()
+            extra["witness"] = {k: w[k] for k in ("cmd", "passed", "failed", "wall_s")}
+            for o in w["obligations"]:
+                all_obl.append(o)
+                if o["status"] != "holds":
+                    all_viol.append(o)
+        if os.environ.get("VERIF_SELFTEST", "1") != "0":
+            extra["selftest"] = run_selftest(prop)
 
     known, _fixed = load_known_findings()
     new_viol = []
